@@ -44,6 +44,7 @@ ATTRS = [
     {"t": (1, (2, 3), [4, (5,)]), "empty_list": [], "empty_tuple": (), "text": ""},
     {"coordinates": ["rows", "time"], "false": False, "zero": 0, "zerof": 0.0},
     {"quote": 'a "b" \\ c', "unicode": "σ⁰ λ 日本", "newline": "x\ny"},
+    {"nodata": "NaN", "upper": "Infinity", "lower": "-Infinity", "none": "null", "yes": "true", "one": "1", "num": "-1.5e3", "nat": "NaT", "when": "2014-08-29T03:21:54", "listy": "[1, 2]", "names": ["NaN", "x", ["Infinity", ("null", "1")]], "py": ("nan", "inf", "None", "{}")},
     # regular-looking lists of pairs (what a 'store start/stop/step' optimisation would fold): starts and stops that advance by
     # different constants, by the same constant, geometric, with one irregular element
     # containers that are subclasses of dict / list / tuple (isinstance, not type(...) is ...)
@@ -70,6 +71,9 @@ def float_values(dt):
 TIME_INTS = [0, 1, -1, 1409282514, "NaT", 2**53 + 1]
 TIME_EXTREMES = {100: [I64MAX, 0, 1], 102: [I64MIN + 1, 0, -1]}  # one extreme per array: a span > 2^63 units cannot be an int64 offset
 STRINGS = ["", "a", "µs", "日本語", "x y ", 'q"\\']
+# text that reads like a token of another type (JSON constants, numbers, times, containers): it is still text
+LOOKALIKES = ["NaN", "Infinity", "-Infinity", "null", "true", "1", "-1.5e3", "NaT", "2014-08-29T03:21:54", "[1, 2]", "nan", "inf", "None", "{}"]
+STRINGS = STRINGS + LOOKALIKES
 
 
 def rotated(values, shape, j):
